@@ -191,36 +191,50 @@ def check_mirror(P, R, tu):
     rets = [r for r in fn.walk() if r.get("k") == "ReturnStmt" and kids(r) and strip(kids(r)[0]).get("k") == "BinaryOperator"
             and strip(kids(r)[0]).get("op") in ("&&", "||")]
     shapes = {}
+
+    def atoms(e, op):
+        e = strip(e)
+        if e is not None and e.get("k") == "BinaryOperator" and e.get("op") == op:
+            return atoms(e["c"][0], op) + atoms(e["c"][1], op)
+        if e is not None and e.get("k") == "BinaryOperator":
+            return [(e["op"], expr_text(strip(e["c"][0])), expr_text(strip(e["c"][1])))]
+        return [("?", expr_text(e), "")]
     for r in rets:
         e = strip(kids(r)[0])
         gs = [norm_cond(g["cond"], g["pol"]) for g in guards_of(fn, r) if "pol" in g]
         up = any(op == ">" and "dir" in x and y == "0" for op, x, y in gs)
         down = any(op == "<" and "dir" in x and y == "0" for op, x, y in gs)
-        parts = []
-        for side in (e["c"][0], e["c"][1]):
-            s = strip(side)
-            if s.get("k") == "BinaryOperator":
-                parts.append((s["op"], expr_text(strip(s["c"][0])), expr_text(strip(s["c"][1]))))
         wrap = e["op"] == "||"
-        shapes[("up" if up else "down" if down else "?", wrap)] = (e["op"], parts)
-    exp = {("up", False): ("&&", [(">=", "now.t.u", "clo->fst.t.u"), ("<=", "now.t.u", "clo->lst.t.u")]),
-           ("up", True): ("||", [("<=", "now.t.u", "clo->lst.t.u"), ("==", "now.d.u", "0")]),
-           ("down", False): ("&&", [("<=", "now.t.u", "clo->fst.t.u"), (">=", "now.t.u", "clo->lst.t.u")]),
-           ("down", True): ("||", [(">=", "now.t.u", "clo->lst.t.u"), ("==", "now.d.u", "0")])}
+        shapes[("up" if up else "down" if down else "?", wrap)] = (e["op"], atoms(e, e["op"]))
     # names of the parameters may change: compare modulo the two parameter names
     pn, pc = fn.params[0]["n"], fn.params[1]["n"]
 
     def canon(parts):
-        return [(op, a.replace(pn + ".", "now.").replace(pc + "->", "clo->"), b.replace(pn + ".", "now.").replace(pc + "->", "clo->"))
-                for op, a, b in parts]
-    for key, (eop, eparts) in exp.items():
-        got = shapes.get(key)
-        n += 1
-        if got is not None and got[0] == eop and canon(got[1]) == eparts:
-            R.ob(rule, "time-only test for a %s%s run: %s" % (key[0], " wrapping" if key[1] else "", " ".join("%s%s%s" % (a, op, b) for op, a, b in eparts)), True)
+        return sorted((op, a.replace(pn + ".", "now.").replace(pc + "->", "clo->").strip("()"), b.replace(pn + ".", "now.").replace(pc + "->", "clo->").strip("()"))
+                      for op, a, b in parts)
+    MIR = {"<=": ">=", ">=": "<=", "<": ">", ">": "<"}
+
+    def mirror(parts):
+        return sorted((MIR.get(op, op), a, b) for op, a, b in parts)
+    # what each test must at least say (the rest -- e.g. a test of the midnights passed -- must be the same up and down)
+    need = {False: {("fst", True), ("lst", True)}, True: {("lst", True), ("d.u", False)}}
+    for wrap in (False, True):
+        upk, dnk = shapes.get(("up", wrap)), shapes.get(("down", wrap))
+        n += 2
+        what = "wrapping " if wrap else ""
+        if upk is None or dnk is None or upk[0] != dnk[0] or upk[0] != ("||" if wrap else "&&"):
+            R.finding(rule, fn, "time-only %stests" % what, "the pair of time-only range tests for %sruns was not found as one conjunction / "
+                      "disjunction each (%s, %s)" % (what, upk, dnk))
+            continue
+        cu, cd = canon(upk[1]), canon(dnk[1])
+        missing = [nm for nm, _ in need[wrap] if not any(nm in a or nm in b for _, a, b in cu)]
+        if cu == mirror(cd) and not missing and any(op in (">=", ">") and "fst" in b for op, a, b in cu if not wrap) == (not wrap):
+            R.ob(rule, "time-only tests for %sruns: the falling test is the mirror image of the rising one (%s)" % (
+                what, " ".join("%s%s%s" % (a, op, b) for op, a, b in cu)), True)
+            R.ob(rule, "time-only tests for %sruns say where the value lies relative to %s" % (what, " and ".join(sorted(nm for nm, _ in need[wrap]))), True)
         else:
-            R.finding(rule, fn, "time-only %s%s" % (key[0], " wrap" if key[1] else ""), "the time-only range test for a %s%s run is %s; the "
-                      "mirror-consistent form is %s %s" % (key[0], " wrapping" if key[1] else "", got and (got[0], canon(got[1])), eop, eparts))
+            R.finding(rule, fn, "time-only %stests" % what, "the rising test %s and the falling test %s are not mirror images of each other%s"
+                      % (cu, cd, "; nothing is said about %s" % missing if missing else ""))
     R.floor(rule, "range tests", n, 6)
 
 
@@ -327,6 +341,9 @@ def check(P, R, tier):
     check_mirror(P, R, tu)
     check_skip(P, R, tu)
     check_step(P, R, tu)
+    import seqdecode
+    ns = seqdecode.run(R, P, "RF2-seq")
+    R.floor("RF2-seq", "decoded skip lists and sequence runs", ns, 100)
 
 
 LEVEL = ("Decides structural necessary conditions of termination and of the range test in dseq: the refusal of naught increments "
@@ -334,6 +351,10 @@ LEVEL = ("Decides structural necessary conditions of termination and of the rang
          "time units' value slot only under a duration type test; the midnight carry of every component of a compound increment "
          "is accumulated; the range predicate gets its bounds in direction order and the four time-only tests are mirror "
          "consistent; skip bits agree between setter and tester; every sequence loop advances the value it tests.  That the "
-         "values printed are exactly FIRST + k*INC within the bounds is NOT decided (unbounded iteration over computed dates).")
+         "values printed are exactly FIRST + k*INC within the bounds is decided on 44 representative runs by folding the helpers the "
+         "main loop is made of (RF2-seq: direction, start, range test, step, anchoring at LAST; dates with day / week / month / year "
+         "steps both ways, skip sets, times of day around midnight and with steps that miss LAST or span days), together with 13 skip "
+         "lists through set_skip / skipp; for all other inputs it rests on the structural conditions.  The three-line loop of main() "
+         "itself, argument parsing and printing are not folded.")
 RULE = "obligation = one dominance fact, one guarded union read, one accumulation site, one range test shape, one bit table, one loop"
 ASSUME = ["dt_dtadd moves a date-time by the increment (C03/C04/C11)", "dt_dt_in_range_p is the order of C08"]
